@@ -2,6 +2,7 @@ SPECIFICATION Spec
 CONSTANTS
   Ids <- Ids4
   RelOrder <- Rel2
+  MaxLoad = 2
   MaxInit = 1
   SampleT = 24
   SampleS = 6
